@@ -104,6 +104,11 @@ def gen_case(g):
     grouped = g.random() < 0.75
     pg = pop.make_pgmat(g, ntaxa, nvrnt, nchr, codes=codes, xomode=xomode, optional=g.random() < 0.8, hap=hap,
                         grouped=grouped, interleave=g.random() < 0.6)
+    g3 = numpy.random.default_rng([int(g.integers(2 ** 31)), 77])
+    if g3.random() < 0.3 and pg.mat.shape[0] > 1:
+        # some parents are inbred lines (every chromosome copy equals copy 0), others stay heterozygous: "no meiosis needed" shortcuts
+        inbred = numpy.flatnonzero(g3.random(ntaxa) < 0.5)
+        pg.mat[1:, inbred, :] = pg.mat[0:1, inbred, :]
     ncross = 1 if g.random() < 0.2 else int(g.integers(1, 7))
     xmode = int(g.integers(4))
     if xmode == 0:
